@@ -250,10 +250,19 @@ def dep_less(a, b):
     nb = dump_get(b[4], D_KNOWNAS)
     na = a[1] if na is None else na
     nb = b[1] if nb is None else nb
-    la, lb = na.lower(), nb.lower()
+    la, lb = lower_name(na), lower_name(nb)
     if la != lb:
         return la < lb
     return na > nb
+
+
+def lower_name(n):
+    """the lower-cased form the npm order is documented to compare (strings.ToLower: Unicode
+    letters too); computed here, independently of the implementation"""
+    try:
+        return n.decode("utf-8").lower().encode("utf-8")
+    except UnicodeDecodeError:
+        return n.lower()
 
 
 # ----------------------------------------------------------------------------- which variant does the tree have?
